@@ -801,7 +801,11 @@ def run(scen, ctx):
                 r = pane.from_data(val, T, custom=custom) if scen.get('api', True) else conv.convert(val)
                 out = {'value': ctx.enc(r)}
             except ConvertError as e:
-                out = {'text': render_text(e), 'tree': enc_tree(ctx, e.tree)}
+                try:
+                    out = {'text': render_text(e), 'tree': enc_tree(ctx, e.tree)}
+                except BaseException as e2:  # noqa   rendering the tree RAISED: that is what C08 forbids, not a harness problem
+                    out = {'render_raises': map_exc(e2), 'tree': enc_tree(ctx, e.tree)}
+                    scen.setdefault('_oracle_pre', {})['c08'] = f'rendering the error tree raised {type(e2).__name__}: {e2}'
             except BaseException as e:  # noqa
                 out = {'raises': map_exc(e)}
         elif op == 'io':
